@@ -8,6 +8,7 @@
 import Aqv.Lemmas.RlpCanon
 import Aqv.Lemmas.RlpTyped
 import Aqv.Lemmas.RlpStream
+import Aqv.Lemmas.RlpRaw
 import Aqv.Lemmas.Translated.Rlp
 namespace Aqv.Props.C11
 open Aqv Aqv.Rlp
@@ -423,5 +424,31 @@ example : (RlpStream.decodeStream [0xc3, 0x01, 0x02, 0x03]).1 = .ok (.list [.str
   (stream_refines_stream _ _).2 (by rfl)
 example : (RlpStream.decodeBytes [0xc3, 0x01, 0x02, 0x03, 0x04]).1 = .error .moreThanOneValue :=
   stream_more_than_one_value (.list [.str [1], .str [2], .str [3]]) (by decide) [0x04] (by simp)
+
+/-! ## rlp/raw.go: Split, SplitString, SplitList, CountValues never panic -/
+
+/-- `split_total`: on every byte slice `Split`, `SplitString` and `SplitList` return a result or an error — the slice
+    expressions `b[ts:ts+cs]`, `b[ts+cs:]` are always in bounds, because a successful `readKind` has checked
+    `contentsize ≤ len(buf) - tagsize` (in unsigned arithmetic that cannot wrap: `tagsize ≤ len(buf)`). -/
+theorem split_total (b : Bytes) :
+    RlpRaw.split b ≠ .panic ∧ RlpRaw.splitString b ≠ .panic ∧ RlpRaw.splitList b ≠ .panic :=
+  ⟨RlpRaw.split_ne_panic b, RlpRaw.splitString_ne_panic b, RlpRaw.splitList_ne_panic b⟩
+
+/-- `countValues_total`: `CountValues` never panics and its loop terminates (every round consumes at least one byte). -/
+theorem countValues_total (b : Bytes) : RlpRaw.countValues b ≠ .panic ∧ RlpRaw.countValues b ≠ .err .fuel :=
+  RlpRaw.countValues_total b
+
+/-- what a successful `readKind` of raw.go guarantees: the value lies inside the buffer and is not empty. -/
+theorem raw_readKind_in_bounds (buf : Bytes) (k : RlpRaw.K) (ts cs : Nat) (h : RlpRaw.rawReadKind buf = .ok (k, ts, cs)) :
+    ts + cs ≤ buf.length ∧ 1 ≤ ts + cs :=
+  ⟨(RlpRaw.rawReadKind_ok buf k ts cs h).1, (RlpRaw.rawReadKind_ok buf k ts cs h).2.1⟩
+
+-- an 8-byte size just below 2^63 (the wrap-around point of a signed index) is rejected, at top level and in a list walk
+set_option maxRecDepth 4000 in
+example : RlpRaw.rawReadKind [0xbf, 0x7f, 0xff, 0xff, 0xff, 0xff, 0xff, 0xff, 0xff] = .error .valueTooLarge := by rfl
+set_option maxRecDepth 4000 in
+example : RlpRaw.rawReadKind [0xff, 0x7f, 0xff, 0xff, 0xff, 0xff, 0xff, 0xff, 0xf7, 0x00] = .error .valueTooLarge := by rfl
+set_option maxRecDepth 4000 in
+example : RlpRaw.rawReadKind [0xc3, 0x01, 0x02, 0x03, 0x04] = .ok (.list, 1, 3) := by rfl
 
 end Aqv.Props.C11
